@@ -41,16 +41,47 @@ pub trait Rule: RuleClone + Debug + Send {
         };
         let (kind, expression) = self.unmake();
         let rendered = escaper.escaped_printable(&expression);
-        if kind == "equal" {
-            if escaper.has_unprintable(&expression) {
-                format!("{rendered} (escaped{quantifier})")
-            } else {
-                format!("{rendered}{equal_quantifier}")
+        let unprintable = escaper.has_unprintable(&expression);
+        match kind.as_str() {
+            "equal" => {
+                if unprintable {
+                    format!("{rendered} (escaped{quantifier})")
+                } else if quantifier.is_empty() && ends_like_modifier(&rendered) {
+                    // the bare text would be read as an expression with a modifier
+                    format!("{rendered} (equal)")
+                } else {
+                    format!("{rendered}{equal_quantifier}")
+                }
             }
-        } else {
-            format!("{rendered} ({kind}{quantifier})")
+            // escape sequences are always resolved when this kind is read, so
+            // backslashes must always be escaped when it is written
+            "escaped" if !unprintable => {
+                format!("{} (escaped{quantifier})", rendered.replace('\\', "\\\\"))
+            }
+            // only a glob can be read back from an escaped rendering
+            "glob" if unprintable => format!("{rendered} (escaped) (glob{quantifier})"),
+            "escaped" | "glob" => format!("{rendered} ({kind}{quantifier})"),
+            // all other kinds are read back literally
+            _ => format!(
+                "{} ({kind}{quantifier})",
+                String::from_utf8_lossy(&expression)
+            ),
         }
     }
+}
+
+/// Whether the text ends in something that reads as an expectation modifier,
+/// i.e. white space followed by a parenthesized kind and / or quantifier
+fn ends_like_modifier(text: &str) -> bool {
+    let Some(start) = text.rfind('(') else {
+        return false;
+    };
+    let Some(inner) = text[start + 1..].strip_suffix(')') else {
+        return false;
+    };
+    let inner = inner.strip_suffix(['*', '+', '?']).unwrap_or(inner);
+    text[..start].ends_with(char::is_whitespace)
+        && inner.chars().all(|ch| ch.is_ascii_lowercase() || ch == '-')
 }
 
 impl Display for Box<dyn Rule> {
